@@ -410,6 +410,16 @@ func withFunc(c *Case, invs []inv) []inv {
 	return out
 }
 
+// trimDialogue: the whole dialogue, modulo trailing blanks per line and surrounding line ends.
+func trimDialogue(s string) string {
+	ls := strings.Split(s, "\n")
+	for i := range ls {
+		ls[i] = strings.TrimRight(ls[i], " \t\r")
+	}
+
+	return strings.Trim(strings.Join(ls, "\n"), "\n")
+}
+
 func sameInvs(a, b []inv) bool {
 	if len(a) != len(b) {
 		return false
@@ -734,7 +744,10 @@ func run1(c Case, scale int) ev.Verdict {
 					continue
 				}
 
-				if o.end == "complete" && strings.Trim(o.result, "\n") != strings.Trim(got.res, "\n") {
+				// "returning the whole dialogue": what the operation had looked at when it completed,
+				// possibly with what it had already read behind that
+				if g, m := trimDialogue(got.res), trimDialogue(o.result); o.end == "complete" && g != m &&
+					!(strings.HasPrefix(g, m) && strings.HasPrefix(trimDialogue(strings.Join(chunks, "")), g)) {
 					why = fmt.Sprintf("complete: result %q, model %q", got.res, o.result)
 
 					continue
@@ -760,6 +773,34 @@ func run1(c Case, scale int) ev.Verdict {
 
 	if !matched {
 		try(fine, fineAge)
+	}
+
+	if !matched {
+		// ... or word by word (after every blank and every line end): "whenever the accumulated
+		// output satisfies a trigger" does not name a granularity
+		var (
+			finer    []string
+			finerAge []time.Duration
+		)
+
+		for i, ck := range chunks {
+			start := 0
+
+			for j := 0; j < len(ck); j++ {
+				if ck[j] == ' ' || ck[j] == '\n' {
+					finer, finerAge = append(finer, ck[start:j+1]), append(finerAge, chunkAge[i])
+					start = j + 1
+				}
+			}
+
+			if start < len(ck) {
+				finer, finerAge = append(finer, ck[start:]), append(finerAge, chunkAge[i])
+			}
+		}
+
+		if len(finer) <= 5000 {
+			try(finer, finerAge)
+		}
 	}
 
 	if !matched {
